@@ -260,10 +260,23 @@ def histories(M, rec, rng, reps):
                 D.callform(net.add_node, D.ORDER["add_node"], {"node": op[1]}, 1)
             elif kind == "add_nodes":
                 op = ("add_nodes", rng.sample(N, rng.randint(0, len(N))))
-                form = rng.choice(("list", "tuple", "iter", "gen"))
+                form = rng.choice(("list", "tuple", "iter", "gen", "view of another network", "graph nodes of another network", "dict keys", "set"))
                 rec.seen("bulk_argument_forms", ("add_nodes", form))
-                D.callform(net.add_nodes, D.ORDER["add_nodes"], {"nodes": {"list": list(op[1]), "tuple": tuple(op[1]), "iter": iter(list(op[1])),
-                                                                           "gen": (x for x in op[1])}[form]}, 1)
+                if form in ("view of another network", "graph nodes of another network"):
+                    # the nodes of an existing network handed over as they are (`corridor.add_nodes(whole.nodes)`): the NODES are
+                    # added - what the other network attached to them or stored on them stays there
+                    other = M.Network(name="other").add_nodes(op[1])
+                    for j_, n_ in enumerate(op[1]):
+                        if j_ % 2 == 0:
+                            other.add_origin(M.MeteredOnRamp(1500.0, name=f"oo{j_}"), n_)
+                        else:
+                            other.add_destination(M.Destination(name=f"od{j_}"), n_)
+                        other.G.nodes[n_]["pos"] = (j_, 0.0)
+                    arg = other.nodes if form.startswith("view") else other.G.nodes
+                else:
+                    arg = {"list": list(op[1]), "tuple": tuple(op[1]), "iter": iter(list(op[1])), "gen": (x for x in op[1]),
+                           "dict keys": {x: i_ for i_, x in enumerate(op[1])}, "set": set(op[1])}[form]
+                D.callform(net.add_nodes, D.ORDER["add_nodes"], {"nodes": arg}, 1)
             elif kind == "add_link":
                 op = ("add_link", rng.choice(N), rng.choice(L), rng.choice(N))
                 D.callform(net.add_link, D.ORDER["add_link"], {"node_up": op[1], "link": op[2], "node_down": op[3]}, 3)
